@@ -3,6 +3,7 @@
 From Coq Require Import String.
 From RecordUpdate Require Import RecordSet.
 From Mux Require Import Model.Bytes Model.Wire Model.Regex Model.Context Model.Syntax Model.Tree Model.Router.
+From Mux Require Import Model.Http Model.Cors.
 From Mux Require Import Spec.Table Spec.Resolve.
 Import RecordSetNotations.
 
@@ -139,16 +140,39 @@ Record srt := mk_srt {
   rejected : bool;              (* a Handle call was rejected since [memo] was cleared *)
   frame : memo_t;               (* dispatch observations that later removals must not change *)
   syn : list (bytes * bool);    (* CheckSyntax answers seen *)
+  copt : cors_opt;              (* CORS options as given *)
+  rcors : cors;                 (* sanitised (model side) *)
 }.
 #[export] Instance eta_srt : Settable _ :=
-  settable! mk_srt <rt; facs; unsup; pid; tc; live; uses; addonly; memo; rejected; frame; syn>.
+  settable! mk_srt <rt; facs; unsup; pid; tc; live; uses; addonly; memo; rejected; frame; syn; copt; rcors>.
+
+(* cfg … <n> ic… cors <n> origins… <n> allow-headers… <n> exposed… max-age creds *)
+Definition no_cors : cors_opt :=
+  {| o_origins := []; o_allow_headers := []; o_exposed := []; o_max_age := 0; o_creds := false |}.
+Definition deny_cors : cors := opt_default
+  {| c_origins := []; c_allow_headers := []; c_creds := false; c_deny := true; c_any_origins := false; c_any_headers := false;
+     c_allow_headers_string := []; c_exposed_string := []; c_max_age_string := [] |} (cors_sanitize no_cors).
+Definition cors_of_cfg (cfg : line) : cors_opt :=
+  let rest := snd (take_list (skipn 4 (args cfg))) in
+  match rest with
+  | tag :: rest1 =>
+    if beqb tag (bs "cors") then
+      let '(og, r2) := take_list rest1 in
+      let '(ah, r3) := take_list r2 in
+      let '(ex, r4) := take_list r3 in
+      {| o_origins := og; o_allow_headers := ah; o_exposed := ex;
+         o_max_age := opt_default 0%Z (dec_to_Z (nth 0 r4 [])); o_creds := beqb (nth 1 r4 []) (bs "1") |}
+    else no_cors
+  | [] => no_cors
+  end.
 
 Definition init_rt (pid : bytes) (h : list line) : srt :=
   let cfg := match filter (fun l => beqb (arg 0 l) (bs "cfg")) h with l :: _ => l | [] => [] end in
   let ic := map (fun kv => (fst kv, icpt_of_kind (snd kv))) (pairs (fst (take_list (skipn 4 (args cfg))))) in
   {| rt := new_router (arg 2 cfg) ic (argb 1 cfg) (arg 3 cfg); facs := []; unsup := false; pid := pid;
      tc := {| c_trace := argb 1 cfg; c_router := arg 2 cfg; c_ic := ic |};
-     live := []; uses := []; addonly := true; memo := []; rejected := false; frame := []; syn := [] |}.
+     live := []; uses := []; addonly := true; memo := []; rejected := false; frame := []; syn := [];
+     copt := cors_of_cfg cfg; rcors := opt_default deny_cors (cors_sanitize (cors_of_cfg cfg)) |}.
 
 Definition target_facade (s : srt) (t : bytes) : option facade :=
   if beqb t (bs "r") then None else alookup t (facs s).
@@ -162,6 +186,55 @@ Definition apply_res (s : srt) (r : res router) : srt * list bytes :=
   | Unsup => (mark_unsup s, [bs "unsup"])
   | _ => (s, res_obs r)
   end.
+
+(* ---- responses *)
+Definition hdr_field (k : bytes) (h : headers) : bytes :=
+  match h_get_all k h with [] => bs "-" | vs => bs "=" ++ join [31] vs end.
+
+Definition cors_keys : list bytes := [ACAO; ACAC; ACAM; ACAH; ACEH; ACMA; VARY].
+
+Definition creq_of (o : line) : creq :=
+  {| q_method := arg 1 o; q_path := arg 2 o; q_origin := arg 3 o; q_acrm := arg 4 o; q_acrh := arg 5 o |}.
+
+Definition creq_obs (s : srt) (o : line) : list bytes :=
+  let q := creq_of o in
+  match tree_handler (rtree (rt s)) (q_method q) (q_path q) [] with
+  | HPanic _ => [bs "panic"; bs "runtime"]
+  | HFound ok n h _ =>
+    let wh := match ok, n with
+              | true, Some nd => cors_handle (rcors s) (methods_of (nmidx nd)) (allow_of (nmidx nd)) q []
+              | _, _ => []
+              end in
+    [print_core h; match n with Some nd => npat nd | None => [] end] ++ map (fun k => hdr_field k wh) cors_keys
+  end.
+
+Fixpoint parse_events (l : list bytes) : list wevent :=
+  match l with
+  | k :: a :: b :: l' =>
+    (if beqb k (bs "S") then ESet a b
+     else if beqb k (bs "A") then EAdd a b
+     else if beqb k (bs "D") then EDel a
+     else if beqb k (bs "H") then EWriteHeader (opt_default 0 (dec_to_N a))
+     else EWrite (opt_default 0 (dec_to_N a))) :: parse_events l'
+  | _ => []
+  end.
+
+Definition writer_obs (w : writer) : list bytes :=
+  let hs := asort (sent_headers w) in
+  [N_to_dec (status_of w); N_to_dec (body w); nat_to_dec (length hs)] ++
+  flat_map (fun kv => [fst kv; join [31] (snd kv)]) hs.
+
+(* script <path> <n> (kind a b)… : the same handler behaviour under GET and under HEAD *)
+Definition script_obs (s : srt) (o : line) : list bytes :=
+  let path := arg 1 o in
+  let script := parse_events (fst (take_list (skipn 2 (args o)))) in
+  let one (method : bytes) : list bytes :=
+    match tree_handler (rtree (rt s)) method path [] with
+    | HPanic _ => [bs "panic"]
+    | HFound ok _ h _ =>
+      print_core h :: writer_obs (if ok && beqb method HEAD then run_head [] script else run_get [] script)
+    end in
+  one GET ++ one HEAD.
 
 Definition step_rt (s : srt) (o : line) : srt * list bytes :=
   let op := arg 0 o in
@@ -207,6 +280,10 @@ Definition step_rt (s : srt) (o : line) : srt * list bytes :=
     | None => (s, url_obs (r_url (rt s) (argb 2 o) (arg 3 o) ps))
     | Some f => (s, url_obs (f_url (rt s) f (argb 2 o) (arg 3 o) ps))
     end
+  else if beqb op (bs "creq") then (s, creq_obs s o)
+  else if beqb op (bs "script") then (s, script_obs s o)
+  else if beqb op (bs "tracehelper") then
+    (s, writer_obs (run_get [] (trace_script (Some []) (fun _ => repeat 0 (argnat 2 o)))))
   else if beqb op (bs "syntax") then (s, res_obs (check_syntax (arg 1 o)))
   else if beqb op (bs "muxurl") then
     let ps := pairs (fst (take_list (skipn 2 a))) in
@@ -504,6 +581,129 @@ Definition handle_clauses (s : srt) (o : line) (r : list bytes) : list bytes :=
    | None, _, _ => []
    end).
 
+(* ---------------------------------------------------------------- CORS (C11, C12) *)
+(* the specification's notion of "requested headers are allowed" *)
+Definition headers_allowed_ci (o : cors_opt) (acrh : bytes) : bool :=
+  mem star (o_allow_headers o) ||
+  forallb (fun item => let v := trim_space item in
+                       match v with
+                       | [] => match trim_space acrh with [] => true | _ => false end
+                       | _ => existsb (fun a => beqb (to_lower a) (to_lower v)) (o_allow_headers o)
+                       end)
+          (split_byte 44 acrh).
+
+Definition hdr_absent (f : bytes) : bool := beqb f (bs "-").
+Definition hdr_is (f v : bytes) : bool := beqb f (bs "=" ++ v).
+Definition hdr_values (f : bytes) : list bytes := match f with 61 :: r => split_byte 31 r | _ => [] end.
+
+Definition set_eqb (a b : list bytes) : bool := list_beqb (sort_bytes (dedup a)) (sort_bytes (dedup b)).
+
+Definition creq_clauses (s : srt) (o : line) (r : list bytes) : list bytes :=
+  if obs_is r "panic" then [cl "C05:serve-panics"] else
+  if unsup s then [] else
+  let q := creq_of o in
+  let c := copt s in
+  let core := nth 0 r [] in let pat := nth 1 r [] in
+  let acao := nth 2 r [] in let acac := nth 3 r [] in let acam := nth 4 r [] in let acah := nth 5 r [] in
+  let aceh := nth 6 r [] in let acma := nth 7 r [] in let vary := nth 8 r [] in
+  let trace := c_trace (tc s) in
+  let any_o := mem star (o_origins c) in
+  let any_h := mem star (o_allow_headers c) in
+  let listed := mem (q_origin q) (o_origins c) in
+  let no_handler := beqb core (bs "NF") || beqb core (bs "NA") in
+  (* the matched route's Allow set, from the table *)
+  let route_methods : option (list bytes) :=
+    if beqb pat [] then
+      Some (dedup (used_methods (live s) ++ [OPTIONS] ++ (if trace then [TRACE] else []) ++
+                   (if mem GET (used_methods (live s)) then [HEAD] else [])))
+    else option_map (spec_methods trace) (alookup pat (live s)) in
+  let route_allow : option bytes := if beqb pat [] then None else option_map (spec_allow trace) (alookup pat (live s)) in
+  let pre := is_preflight q in
+  let acrm_served := match route_methods with Some ms => mem (q_acrm q) ms | None => false end in
+  let hdrs_ok := headers_allowed_ci c (q_acrh q) in
+  (* ---- C11: never more than configured *)
+  check (hdr_absent acao || (hdr_is acao star && any_o) || (hdr_is acao (q_origin q) && listed)) "C11:allow-origin-not-configured" ++
+  check (hdr_absent acac || (hdr_is acac (bs "true") && hdr_is acao (q_origin q) && listed && negb (hdr_is acao star)))
+        "C11:credentials-without-listed-origin" ++
+  check (negb (match o_origins c with [] => true | _ => false end) || hdr_absent acao) "C11:grant-without-configured-origins" ++
+  check (negb no_handler || hdr_absent acao) "C11:grant-on-404-or-405" ++
+  check (negb (pre && negb acrm_served) || hdr_absent acao) "C11:grant-for-unserved-preflight-method" ++
+  check (negb (pre && negb hdrs_ok) || hdr_absent acao) "C11:grant-for-disallowed-request-header" ++
+  (* ---- C12: exactly what was configured, for requests the configuration allows *)
+  (let origin_ok := any_o || listed in
+   let allowed := origin_ok && negb no_handler && negb (match o_origins c with [] => true | _ => false end) &&
+                  (negb pre || (acrm_served && hdrs_ok)) in
+   if negb allowed then [] else
+   check (hdr_is acao (if any_o then star else q_origin q)) "C12:allow-origin-missing-or-wrong" ++
+   check (if o_creds c then hdr_is acac (bs "true") else hdr_absent acac) "C12:allow-credentials" ++
+   check (match o_exposed c with [] => hdr_absent aceh | l => hdr_is aceh (join (bs ",") l) end) "C12:expose-headers" ++
+   (if pre then
+      check (match route_allow with Some a => hdr_is acam a | None => negb (hdr_absent acam) end) "C12:allow-methods-is-not-the-route-allow-set" ++
+      check (if any_h then has_prefix acah (bs "=*")
+             else match o_allow_headers c with [] => hdr_absent acah | l => hdr_is acah (join (bs ",") l) end) "C12:allow-headers" ++
+      check (if (o_max_age c =? 0)%Z then hdr_absent acma else hdr_is acma (Z_to_dec (o_max_age c))) "C12:max-age"
+    else
+      check (hdr_absent acam && hdr_absent acah && hdr_absent acma) "C12:preflight-headers-on-ordinary-request") ++
+   (let v := hdr_values vary in
+    let base := (if pre then [H_ACRM] else []) ++ (if any_o then [] else [H_ORIGIN]) in
+    let with_h := H_ACRH :: base in
+    let finite_list := negb any_h && negb (match o_allow_headers c with [] => true | _ => false end) in
+    check (if pre && finite_list then set_eqb v with_h
+           else if pre && any_h then set_eqb v base || set_eqb v with_h
+           else set_eqb v base) "C12:vary")).
+
+(* ---------------------------------------------------------------- HEAD vs GET (C08) *)
+(* one response observation: core, status, body length, sent headers; and the rest of the fields *)
+Definition split_writer_obs (l : list bytes) : (bytes * bytes * bytes * list (bytes * bytes)) * list bytes :=
+  match l with
+  | core :: st :: bd :: n :: rest =>
+    let k := (2 * opt_default O (dec_to_nat n))%nat in
+    ((core, st, bd, pairs (firstn k rest)), skipn k rest)
+  | _ => (([], [], [], []), [])
+  end.
+
+(* something the GET response ignores but the HEAD wrapper still sees: a header mutation or a
+   WriteHeader after the first body Write that was not preceded by an explicit WriteHeader *)
+Fixpoint late_event (script : list wevent) (frozen written : bool) : bool :=
+  match script with
+  | [] => false
+  | EWrite _ :: l => late_event l frozen (written || negb frozen)
+  | EWriteHeader _ :: l => written || late_event l true written
+  | (ESet _ _ | EAdd _ _ | EDel _) :: l => written || late_event l frozen written
+  end.
+
+Definition script_clauses (s : srt) (o : line) (r : list bytes) : list bytes :=
+  if beqb (nth 0 r []) (bs "panic") then [cl "C05:serve-panics"] else
+  let script := parse_events (fst (take_list (skipn 2 (args o)))) in
+  let '((gcore, gst, gbd, gh), rest) := split_writer_obs r in
+  if beqb (nth 0 rest []) (bs "panic") then [cl "C05:serve-panics"] else
+  let '((hcore, hst, hbd, hh), _) := split_writer_obs rest in
+  (* only when the GET request ran a registered handler *)
+  if negb (has_prefix gcore (bs "U:")) then [] else
+  let nocl (l : list (bytes * bytes)) := filter (fun kv => negb (beqb (fst kv) content_length)) l in
+  let flat (l : list (bytes * bytes)) := flat_map (fun kv => [fst kv; snd kv]) l in
+  let same := beqb gst hst && list_beqb (flat (nocl gh)) (flat (nocl hh)) in
+  check (beqb gcore hcore) "C08:head-does-not-run-the-get-handler" ++
+  check (beqb hbd (bs "0")) "C08:head-delivers-body-bytes" ++
+  (if same then [] else
+   if late_event script false false then [cl "known:late-header-on-head"]
+   else check (beqb gst hst) "C08:head-status-differs-from-get" ++
+        check (list_beqb (flat (nocl gh)) (flat (nocl hh))) "C08:head-headers-differ-from-get") ++
+  (let total := fold_right (fun e a => match e with EWrite n => n + a | _ => a end) 0 script in
+   let has_write := existsb (fun e => match e with EWrite _ => true | _ => false end) script in
+   let explicit := existsb (fun e => match e with EWriteHeader _ => true | _ => false end) script in
+   if has_write && negb explicit &&
+      negb (existsb (fun e => match e with ESet k _ | EAdd k _ | EDel k => beqb k content_length | _ => false end) script)
+   then check (beqb (opt_default [] (alookup content_length hh)) (N_to_dec total)) "C08:head-content-length"
+   else []).
+
+Definition tracehelper_clauses (o : line) (r : list bytes) : list bytes :=
+  if obs_is r "panic" then [cl "C05:trace-helper-panics"] else
+  let hs := pairs (skipn 3 r) in
+  check (beqb (nth 0 r []) (bs "200")) "C18:trace-helper-status" ++
+  check (beqb (opt_default [] (alookup content_type hs)) message_http) "C18:trace-helper-content-type-not-sent" ++
+  check (beqb (nth 1 r []) (arg 2 o)) "C18:trace-helper-body-is-not-the-escaped-dump".
+
 Definition is_observation (op : bytes) : bool :=
   beqb op (bs "serve") || beqb op (bs "routes") || beqb op (bs "dump") || beqb op (bs "url").
 
@@ -521,6 +721,9 @@ Definition oracle_all (s s' : srt) (o : line) (r : list bytes) : list bytes :=
    else if beqb op (bs "routes") then routes_clauses s r
    else if beqb op (bs "url") then url_clauses s o r
    else if beqb op (bs "handle") then handle_clauses s o r
+   else if beqb op (bs "creq") then creq_clauses s o r
+   else if beqb op (bs "script") then script_clauses s o r
+   else if beqb op (bs "tracehelper") then tracehelper_clauses o r
    else if beqb op (bs "syntax") || beqb op (bs "muxurl") then
      check (negb (obs_is r "panic")) "C05:syntax-or-url-panics"
    else if beqb op (bs "remove") || beqb op (bs "clean") || beqb op (bs "use") then
@@ -531,7 +734,8 @@ Definition oracle_all (s s' : srt) (o : line) (r : list bytes) : list bytes :=
 Definition oracle_rt (s s' : srt) (o : line) (r : list bytes) : list bytes :=
   let all := oracle_all s s' o r in
   if beqb (pid s) (bs "RT") then all
-  else filter (fun c => has_prefix c (pid s)) all.
+  else filter (fun c => has_prefix c (pid s) ||
+                        (has_prefix c (bs "known:late-header") && beqb (pid s) (bs "C08"))) all.
 
 (* ---- the specification side follows what the implementation accepted *)
 Definition absorb_rt (s : srt) (o : line) (r : list bytes) : srt :=
